@@ -42,6 +42,9 @@ type CAOpts struct {
 	Suite   symref.Suite
 	Form    int // 0 named, 1 explicit, 2 explicit + seed
 	Arrange int // 0 no key ids, 1 id in info and key, 2 two keys (info selects the second), 3 info missing
+	// GrindPub (default off): step the static key(s) until the public point has a coordinate
+	// with a leading zero octet: 1 = X, 2 = Y
+	GrindPub int
 }
 
 type Opts struct {
@@ -73,6 +76,8 @@ type Opts struct {
 	LDSv1     bool
 	PKI       issuer.PKIOpts
 	Untrusted bool // the trust store holds another CSCA of the same country (same name), not the issuer
+
+	CAMGrindPub int // as CAOpts.GrindPub, for the static PACE-CAM key in CardSecurity (default off)
 }
 
 var Countries = [][2]string{{"NLD", "NL"}, {"FRA", "FR"}, {"USA", "US"}, {"GBR", "GB"}, {"NZL", "NZ"}, {"SGP", "SG"}, {"CHE", "CH"}, {"AUS", "AU"}, {"MYS", "MY"}}
@@ -113,6 +118,33 @@ type Perso struct {
 	SODDGs  []int // numbers in the security object, in order
 	DG14    []byte
 	DG15    []byte
+}
+
+// grindPub steps an EC key pair (d+1, Q+G) until the chosen coordinate of Q (1 = X, 2 = Y)
+// starts with a zero octet; the case PRNG is not consumed.
+func grindPub(k *issuer.Key, which int) {
+	if which == 0 {
+		return
+	}
+	c, e := k.EC.Curve, k.EC
+	d, q := new(big.Int).Set(e.D), e.Q
+	for i := 0; i < 400000; i++ {
+		co := q.X
+		if which == 2 {
+			co = q.Y
+		}
+		if !q.Inf && c.FE2OS(co)[0] == 0 {
+			e.D, e.Q = d, q
+			return
+		}
+		d.Add(d, big.NewInt(1))
+		q = c.AddAffine(q, c.G())
+		if d.Cmp(c.N) >= 0 {
+			d.SetInt64(1)
+			q = c.G()
+		}
+	}
+	panic("perso: grinding did not terminate")
 }
 
 func cd(s string) string { return string([]byte{ldsgen.CheckDigit(s)}) }
@@ -288,6 +320,7 @@ func Build(r *mrand.Rand, o Opts) *Perso {
 		if o.Access == PACECAM {
 			cv := ecref.ByParamID(o.ParamID)
 			sk := issuer.NewECKey(r, cv)
+			grindPub(sk, o.CAMGrindPub)
 			p.camPriv = sk.EC.D
 			keyID := -1
 			if r.IntN(2) == 0 {
@@ -302,6 +335,7 @@ func Build(r *mrand.Rand, o Opts) *Perso {
 		cv := ecref.All()[o.CA.Curve]
 		mk := func() *issuer.Key {
 			k := issuer.NewECKey(r, cv)
+			grindPub(k, o.CA.GrindPub)
 			k.Explicit = o.CA.Form >= 1
 			k.WithSeed = o.CA.Form == 2
 			return k
